@@ -977,7 +977,7 @@ static void que_case(uint64_t c, vf_rng *r)
     }
 }
 
-static uint64_t vf_ncases(int tier) { return tier ? 300000 : 6000; }
+static uint64_t vf_ncases(int tier) { return tier ? 1200000 : 6000; }
 static void vf_case(uint64_t c, vf_rng *r)
 {
     switch (c % 3)
